@@ -25,6 +25,7 @@ namespace BFL.AnyBox
 /-- Held types of the pool: `int`, `double`, `std::string`, `Eigen::MatrixXd`, instance-counting probe. -/
 inductive Tag where
   | int | dbl | str | mat | probe
+  | thr        -- a probe whose copy constructor throws on demand
   deriving DecidableEq, Repr, Inhabited
 
 /-- A value of a held type: its type tag and an integer code naming the value
@@ -44,6 +45,7 @@ def movedFrom (v : Val) : Val :=
   | .str => { v with code := -1 }
   | .mat => { v with code := -1 }
   | .probe => { v with code := -1 }
+  | .thr => { v with code := -1 }
 
 abbrev Id := Nat
 
@@ -319,6 +321,7 @@ inductive Out where
   | done
   | src (v : Val)           -- the caller's value object after the call
   | cast (r : Option Val)   -- `none`: nullptr / bad_any_cast
+  | threw                   -- the copy constructor of a held object threw; its exception left the call
   deriving DecidableEq, Repr, Inhabited
 
 def liveN (s : St) (k : Nat) : Bool := isLive s (.named k)
@@ -369,9 +372,51 @@ def run (n : Nat) (s : St) (ops : List Op) : St :=
 def destroyAll (n : Nat) (s : St) : St :=
   run n s ((List.range n).map Op.destroy)
 
+/-! ### Exceptions thrown by the copy constructor of a held type
+
+Where `any.h` copy-constructs a held object: in `new holder<T>(value)` (value construction from an lvalue /
+const rvalue, and `clone()` inside the copy constructor — hence inside every copy-and-swap assignment, whose
+temporary is built *before* anything is swapped), and in the return statement of the copying value casts.
+`copied` names the value an operation copy-constructs first, if it does; `stepThrow` is the operation when
+that copy construction throws: for the `new` expressions storage was obtained and is released again by the
+new-expression, no `any` comes to life (neither the container under construction nor the temporary of an
+assignment), the exception leaves the call before `swap`; for the value casts nothing happened at all. -/
+
+/-- storage for a holder obtained and released again because the constructor of the held member threw -/
+def failedNew (s : St) : St :=
+  { s with next := s.next + 1, log := .free s.next :: .alloc s.next :: s.log }
+
+def copied (n : Nat) (s : St) : Op → Option Val
+  | .ctorAny k src c =>
+    if freeN n s k && liveN s src && decide (c ≠ .rref) then held s (.named src) else none
+  | .ctorVal k c v => if freeN n s k && decide (c ≠ .rref) then some v else none
+  | .asgnAny a b c =>
+    if liveN s a && liveN s b && decide (c ≠ .rref) then held s (.named b) else none
+  | .asgnVal a c v => if liveN s a && decide (c ≠ .rref) then some v else none
+  | .castVal a t f =>
+    if liveN s a && decide (f ≠ .rvalMove) && decide (typeOf s (.named a) = some t) then held s (.named a) else none
+  | _ => none
+
+def stepThrow (n : Nat) (s : St) (op : Op) : St × Out :=
+  match copied n s op with
+  | none => step n s op                      -- no held object is copy-constructed: nothing can throw
+  | some _ =>
+    match op with
+    | .castVal _ _ _ => (s, .threw)
+    | _ => (failedNew s, .threw)
+
+/-- An operation, optionally run while the copy constructor of the `thr` probe is armed to throw. -/
+def stepX (n : Nat) (s : St) (x : Op × Bool) : St × Out :=
+  match x.2, copied n s x.1 with
+  | true, some v => if v.tag = .thr then stepThrow n s x.1 else step n s x.1
+  | _, _ => step n s x.1
+
+def runX (n : Nat) (s : St) (xs : List (Op × Bool)) : St :=
+  xs.foldl (fun s x => (stepX n s x).1) s
+
 /-! ### What a client can observe of one slot (printed by the driver, compared with the harness) -/
 
-def allTags : List Tag := [.int, .dbl, .str, .mat, .probe]
+def allTags : List Tag := [.int, .dbl, .str, .mat, .probe, .thr]
 
 structure SlotView where
   hasValue : Bool
